@@ -234,3 +234,18 @@ Proof.
   intros Hm Hr. unfold calc_active_host. destruct (N.eqb_spec h (ae_master env)); [contradiction|].
   destruct (ns_is_cascade ns); [reflexivity|]. rewrite Hr. reflexivity.
 Qed.
+
+(* C20: the repaired recovery check cannot crash, whatever the coordination service and the servers answer *)
+Theorem check_recovery_nopanic me m clk : nopanic (check_recovery me m clk).
+Proof.
+  unfold check_recovery. cbn [nopanic]. intros r. destruct r; try exact I.
+  apply nopanic_bind; [cbn [nopanic]; intros; exact I|]. intros fe. destruct fe; [exact I|].
+  apply nopanic_bind; [unfold replica_status; pnp|]. intros st. destruct (snd st); [exact I|].
+  cbn [nopanic]. intros rm. destruct rm as [| | | | | | | | | | |vv| | |]; try exact I. destruct vv; try exact I.
+  unfold rec_with_master. apply nopanic_bind; [apply np_update_hosts|]. intros u. cbn zeta.
+  destruct (negb (fst u)); [exact I|]. destruct (negb (mem_host _ _)); [exact I|].
+  apply nopanic_bind; [unfold gtid_executed; pnp|]. intros g. destruct (snd g); [exact I|].
+  apply nopanic_bind; [unfold is_waiting_ack; pnp|]. intros w. cbn zeta.
+  apply nopanic_bind; [destruct (match snd w with Some _ => false | None => fst w end); [unfold now_; pnp|exact I]|].
+  intros clk0. unfold rec_final, rec_stuck, now_, replica_status, is_read_only, dcs_delete_. pnp.
+Qed.
